@@ -225,20 +225,20 @@ var accNegatives = []struct{ Name, Text string }{
 	{"path-param-unknown", "JSIGHT 0.3\nGET /a/{id}\n  Path\n  {\"other\": 1}\n  200 any\n"},
 	{"jsight-0.2", "JSIGHT 0.2\nGET /a\n  200 any\n"},
 	// other spellings of the number 0.3 are not the version 0.3
-	{"jsight-version-spelling-0", "JSIGHT 0.30\\nGET /a\\n  200 any\\n"},
-	{"jsight-version-spelling-1", "JSIGHT 0.300\\nGET /a\\n  200 any\\n"},
-	{"jsight-version-spelling-2", "JSIGHT 00.3\\nGET /a\\n  200 any\\n"},
-	{"jsight-version-spelling-3", "JSIGHT .3\\nGET /a\\n  200 any\\n"},
-	{"jsight-version-spelling-4", "JSIGHT 0.3e0\\nGET /a\\n  200 any\\n"},
-	{"jsight-version-spelling-5", "JSIGHT 3e-1\\nGET /a\\n  200 any\\n"},
-	{"jsight-version-spelling-6", "JSIGHT +0.3\\nGET /a\\n  200 any\\n"},
-	{"jsight-version-spelling-7", "JSIGHT \\\"0.30\\\"\\nGET /a\\n  200 any\\n"},
-	{"jsight-version-spelling-8", "JSIGHT 0.3.0\\nGET /a\\n  200 any\\n"},
-	{"jsight-version-spelling-9", "JSIGHT 0,3\\nGET /a\\n  200 any\\n"},
-	{"jsight-version-spelling-10", "JSIGHT 0.3 0.3\\nGET /a\\n  200 any\\n"},
-	{"jsight-version-spelling-11", "JSIGHT 0x0.3\\nGET /a\\n  200 any\\n"},
-	{"jsight-version-spelling-12", "JSIGHT ０.３\\nGET /a\\n  200 any\\n"},
-	{"jsight-version-spelling-13", "JSIGHT 0.29999999999999999\\nGET /a\\n  200 any\\n"},
+	{"jsight-version-spelling-0", "JSIGHT 0.30\nGET /a\n  200 any\n"},
+	{"jsight-version-spelling-1", "JSIGHT 0.300\nGET /a\n  200 any\n"},
+	{"jsight-version-spelling-2", "JSIGHT 00.3\nGET /a\n  200 any\n"},
+	{"jsight-version-spelling-3", "JSIGHT .3\nGET /a\n  200 any\n"},
+	{"jsight-version-spelling-4", "JSIGHT 0.3e0\nGET /a\n  200 any\n"},
+	{"jsight-version-spelling-5", "JSIGHT 3e-1\nGET /a\n  200 any\n"},
+	{"jsight-version-spelling-6", "JSIGHT +0.3\nGET /a\n  200 any\n"},
+	{"jsight-version-spelling-7", "JSIGHT \"0.30\"\nGET /a\n  200 any\n"},
+	{"jsight-version-spelling-8", "JSIGHT 0.3.0\nGET /a\n  200 any\n"},
+	{"jsight-version-spelling-9", "JSIGHT 0,3\nGET /a\n  200 any\n"},
+	{"jsight-version-spelling-10", "JSIGHT 0.3 0.3\nGET /a\n  200 any\n"},
+	{"jsight-version-spelling-11", "JSIGHT 0x0.3\nGET /a\n  200 any\n"},
+	{"jsight-version-spelling-12", "JSIGHT ０.３\nGET /a\n  200 any\n"},
+	{"jsight-version-spelling-13", "JSIGHT 0.29999999999999999\nGET /a\n  200 any\n"},
 	// accepted, unusual
 	// a declared TAG whose name is also the tag made up from the path of an untagged interaction
 	{"declared-tag-equals-path-tag", "JSIGHT 0.3\nTAG @cats // Mine\n  Description\n    about\nGET /x\n  Tags @cats\n  200 any\nGET /cats\n  200 any\nGET /cats/{id}\n  200 any\n"},
@@ -252,6 +252,7 @@ var accNegatives = []struct{ Name, Text string }{
 	{"response-headers-only", "JSIGHT 0.3\nGET /a\n  301\n    Headers\n    {\"Location\": \"/new\"}\n"},
 	{"request-headers-only", "JSIGHT 0.3\nPOST /a\n  Request\n    Headers\n    {\"X\": \"1\"}\n  200 any\n"},
 	{"response-headers-only-not-last", "JSIGHT 0.3\nGET /a\n  301\n    Headers\n    {\"Location\": \"/new\"}\n  200 any\n"},
+	{"paths-interleaved-abab", "JSIGHT 0.3\nGET /cats\n  200 any\nGET /dogs\n  200 any\nPOST /cats\n  200 any\nPOST /dogs\n  200 any\nDELETE /cats\n  200 any\nURL /dogs\n  PUT\n    200 any\n"},
 	{"same-tag-twice-in-tags", "JSIGHT 0.3\nTAG @t\nGET /a\n  Tags @t @t\n  200 any\n"},
 	{"same-tag-url-and-method", "JSIGHT 0.3\nTAG @t\nTAG @u\nURL /a\n  Tags @t\n  GET\n    Tags @u @t\n    200 any\n  POST\n    200 any\n"},
 	{"path-or-mismatch", "JSIGHT 0.3\nGET /a/{id}\n  Path\n  {\n    \"id\": \"x\" // {or: [{type: \"integer\"}, {type: \"boolean\"}]}\n  }\n  200 any\n"},
